@@ -470,12 +470,12 @@ func (p *Core) checkRecv(ci int, ps *PktState, r *sim.TxResult, pr PktState, ph 
 	if !ps.V2 && pr.closedDst {
 		w.Violate("C14", "receive-on-closed-ordered-channel", "", fmt.Sprintf("%s: received on an ordered channel end closed by a timeout", ps.Pkt))
 	}
-	if ps.RecvCb != 1 && parseBehav(ps.Behav[0]).kind != "" {
+	if ps.X == nil && ps.RecvCb != 1 {
 		w.Violate("C01", "receive-without-callback", "", fmt.Sprintf("%s: receive returned SUCCESS but the application callback ran %d times", ps.Pkt, ps.RecvCb))
 	}
 
 	// C09 / C10: what persisted
-	if w.AnyArmed("C09", "C10") {
+	if ps.X == nil && w.AnyArmed("C09", "C10") {
 		p.checkRecvEffects(ci, ps, r, res, diff)
 	}
 	out := "sync"
@@ -663,7 +663,7 @@ func (p *Core) checkAck(ci int, ps *PktState, r *sim.TxResult, pr PktState, ph c
 	if !ps.V2 && pr.closedSrc {
 		w.Violate("C14", "ack-on-closed-ordered-channel", "", fmt.Sprintf("%s: acknowledgement processed on an ordered channel end closed by a timeout", ps.Pkt))
 	}
-	if ps.AckCb != 1 {
+	if ps.X == nil && ps.AckCb != 1 {
 		w.Violate("C03", "ack-without-callback", "", fmt.Sprintf("%s: acknowledgement SUCCESS but the callback ran %d times", ps.Pkt, ps.AckCb))
 	}
 	w.MixSig("a" + p.Routes[ps.Route].Kind)
@@ -733,7 +733,7 @@ func (p *Core) checkTimeout(ci int, ps *PktState, r *sim.TxResult, pr PktState, 
 			}
 		}
 	}
-	if ps.TmoCb != 1 {
+	if ps.X == nil && ps.TmoCb != 1 {
 		w.Violate("C03", "timeout-without-callback", "", fmt.Sprintf("%s: timeout SUCCESS but the callback ran %d times", ps.Pkt, ps.TmoCb))
 	}
 	if pr.Done == "acked" {
@@ -752,6 +752,9 @@ func (p *Core) checkTimeout(ci int, ps *PktState, r *sim.TxResult, pr PktState, 
 
 // Finish: end-state oracles after the drain.
 func (p *Core) Finish(w *sim.World) {
+	if p.Opt.Tokens {
+		p.tokFinish()
+	}
 	for _, tag := range p.Order {
 		ps := p.Pkts[tag]
 		if ps == nil {
